@@ -43,6 +43,13 @@ class DefinitionSyntaxError(errors.DefinitionSyntaxError, fp.ParsingError):
             msg += "\n    " + self.location
         return msg
 
+    def __reduce__(self):
+        return (
+            self.__class__,
+            (self.msg, self.location),
+            {"_statement": self._statement},
+        )
+
     def set_location(self, value: str) -> None:
         super().__setattr__("location", value)
 
